@@ -22,6 +22,13 @@ subset leaves the function out and the translator exits non-zero).  What is adde
   * primitives of PyPreludeTypes.lean: `socket.inet_*`, `str.encode()`, `bytes.decode("utf-8", "replace")`,
     `bytes.split(sep, 1)`, `bytes * n`, `int(x)`, `isinstance(x, C)` (closed world: the subclasses of C in C's module),
     `type(a) is type(b)`, `NotImplemented`.
+  * (frame object) property SETTERS (`Frame.data.setter` -> `Frame_data_set`); ABSTRACT methods and class variables without
+    a value (`create_message`, `decode_message`, `frame_type`) are a parameter `env : PyT.Env` of every translated method of
+    such a class (`self.create_message(d)` is `env "create_message" [self, d]`: result only, the callee is assumed not to
+    assign slots of the frame); `**kwargs` is one more dict parameter; `S.pack_into(buf, off, *fields)` and `buf.append(x)`
+    on a byte array CREATED in the same call (`bytearray(n)`, or the result of a property that returns such a fresh
+    array): value semantics are sound there; `x += …` on a name bound to the content of a slot is rejected (it would
+    change the object the slot holds).
 """
 import ast
 import os
